@@ -5,7 +5,8 @@
 #define VERIF_OSTREAM_EVENTS_H
 struct ostream { _Bool bad; int width; char fill; int base; _Bool upper; _Bool left; unsigned long events; };
 enum { M_DEC, M_HEX, M_UPPER, M_NOUPPER, M_LEFT, M_RIGHT, M_NOSHOWBASE };
-enum { EV_CHR, EV_STR, EV_NUM };
+enum { EV_CHR, EV_STR, EV_NUM, EV_CSTR };
+static struct cstr g_ev_cstr;                 /* payload of the last EV_CSTR event */
 struct out_ev { int kind; unsigned long num; char chr; const char *str; int width; char fill; int base; _Bool upper, left; };
 static void mon_out(struct ostream *os, const struct out_ev *e);      /* per-harness specification monitor */
 
@@ -23,6 +24,7 @@ static void os_emit(struct ostream *os, int kind, unsigned long num, char chr, c
 #define OUT_SETW(os, n)    ((os)->width = (int)(n))
 #define OUT_SETFILL(os, c) ((os)->fill = (char)(c))
 #define OUT_SETBASE(os, b) ((os)->base = (int)(b))
+static void os_init(struct ostream *os) { os->bad = 0; os->width = 0; os->fill = ' '; os->base = 10; os->upper = 0; os->left = 0; os->events = 0; }
 static void os_manip(struct ostream *os, int m)
 {
   switch (m)
@@ -40,6 +42,8 @@ static void os_manip(struct ostream *os, int m)
 #define OUT_CHR(os, c)     os_emit((os), EV_CHR, 0, (char)(c), 0)
 #define OUT_STR(os, s)     os_emit((os), EV_STR, 0, 0, (s))
 #define OUT_NUM(os, v)     os_emit((os), EV_NUM, (unsigned long)(v), 0, 0)
+/* a std::string (models/dfs_model.h struct cstr): one formatted insertion of the whole string */
+#define OUT_CSTR(os, s)    do { g_ev_cstr = (s); os_emit((os), EV_CSTR, 0, 0, 0); } while (0)
 /* operator<< overload resolution on the C type of the expression: char prints as a character, integers as numbers */
 #define OUT_VAL(os, x) _Generic((x), char: os_emit((os), EV_CHR, 0, (char)(unsigned long)(x), 0), \
                                      default: os_emit((os), EV_NUM, (unsigned long)(x), 0, 0))
